@@ -173,13 +173,32 @@ func ChildListen(args []string) int {
 	return 0
 }
 
-// startChild is inproc.startAt for uid != 0.
+// selfExe is the vcheck executable (for --child= sub-commands).
+func selfExe() string {
+	if s := os.Getenv("VCHECK_SELF"); s != "" {
+		return s
+	}
+	s, _ := os.Executable()
+	return s
+}
+
+// startChild is inproc.startAt for uid != 0 or another working directory.
 func (d inproc) startChild(cache, addr string) started {
 	d.r.Count("listen_children", 1)
-	cmd := exec.Command(d.self, "--child=c08listen", cache, addr, fmt.Sprint(int64(d.lifespan)))
+	self := d.self
+	if self == "" {
+		self = selfExe()
+	}
+	cmd := exec.Command(self, "--child=c08listen", cache, addr, fmt.Sprint(int64(d.lifespan)))
 	cmd.Dir = "/"
+	if d.dir != "" {
+		cmd.Dir = d.dir
+	}
 	cmd.Env = []string{"PATH=" + os.Getenv("PATH"), "GORACE=halt_on_error=0"}
-	cmd.SysProcAttr = &syscall.SysProcAttr{Setpgid: true, Credential: &syscall.Credential{Uid: uint32(d.uid), Gid: uint32(d.uid)}}
+	cmd.SysProcAttr = &syscall.SysProcAttr{Setpgid: true}
+	if d.uid != 0 {
+		cmd.SysProcAttr.Credential = &syscall.Credential{Uid: uint32(d.uid), Gid: uint32(d.uid)}
+	}
 	stdin, err1 := cmd.StdinPipe()
 	stdout, err2 := cmd.StdoutPipe()
 	var stderr bytes.Buffer
